@@ -21,6 +21,8 @@ CLAIMS = {
          "Sampling of power/price/timestamp vectors (histories plus tiny-integer differential draws). Feed list correctness is C07; activity flags are C15."),
  "C07": ("§5/C07", "Stake model (delegations, restaked coins, locks) fed by accepted staking/restake operations; every MsgVote checked against the TRUE big-integer sum of its powers vs. the voter's total power at that moment; stored vote, lock under the feeds vault, every signal's total and the by-power index compared with the model after every block; at each update block the feed list is checked as a set (all eligible, top by power, size, interval formula) and must not change between update blocks.",
          "Sampling. The int64-wrap defect found by this check was repaired (see known_findings.json); the check reports it again if it returns."),
+ "C08": ("§5/C08", "Per-tunnel model (last sent prices, last full send, sequence, activity, fee-payer balance): at every block end each active tunnel is evaluated from this block's feed prices: insufficient funds => deactivated and nothing else; not due => nothing; due => either a packet with the next sequence carrying exactly the expected prices and charging base+route fee once, or a failure event with no persistent effect at all (sequence, packets, last prices, balances unchanged); where the model can show the TSS route must succeed, a failure is a violation. Manual triggers, packets stored 1..Sequence, ledger of fee payers and the module account. Market prices are aimed at each tunnel's soft/hard thresholds.",
+         "Sampling. IBC route: only the failure path (no counterparty chain). 'Must succeed' is asserted only for fixed-point TSS tunnels with short signal ids and enough available members at the end of the block."),
  "C09": ("§5/C09", "Rolling seed recomputed independently from the block hashes the conductor produced; for every accepted data request the committee is recomputed with an own NIST SP 800-90A HMAC-DRBG and an own implementation of the sampling specification over the model's eligible set (bonded, oracle-active, power-index order) and compared with the stored request (order included); for every signing attempt the eligible list (active, queued nonce in the model, id order) and partial Fisher-Yates are recomputed and compared; too-few-eligible must be rejected. Plus a differential run of the real sampler on tiny boundary-hitting weights per block.",
          "Sampling over (seed, id, weights) produced by histories; totals near 2^64 not reachable through bonded stake. Requests in a block after a staking transaction are skipped (power index may have moved)."),
  "C13": ("§5/C13", "Ledger model of payers, data-source treasuries, signing members and the bandtss escrow compared with bank balances after every block; fee limits drawn at cost-1 / cost / cost+1 / missing denom, poor payers; accept => exact movement within the limit, fee-rejection => model cost really exceeds the limit; payouts exactly once to the assigned members of the final attempt of the current-group signing, nothing for FALLEN or incoming-group signatures; escrow covers unfinished paid signings. Profiles: oracle with fee-bearing data sources, TSS with retries, governance transitions.",
@@ -29,6 +31,8 @@ CLAIMS = {
          "Only-if direction, as the statement is phrased; the block-height fallback only makes the chain more lenient and is not mirrored."),
  "C16": ("§5/C16", "Stake model with boundary-aimed amounts (exactly the unlocked slack, one more): accepted undelegation/unstake must leave total power >= the largest lock over active vaults, a refusal for 'locked' must be backed by an active lock, rejected attempts change nothing (stake, delegation and lock records equal the model), module-level SetLockedPower/DeactivateVault applied between blocks on every replica, vault never reactivates, restake module balance == sum of stake records, by-power lock index == locks (raw store iteration).",
          "No slashing in these histories (all validators vote), as the property assumes. Redelegation keeps total power: either outcome is accepted, only state consistency is checked."),
+ "C17": ("§5/C17", "Per-operation model of deposits/withdrawals/activation by creators and strangers with amounts aimed at the minimum deposit and at own records: withdraw accepted only within the own record, activation only by the creator with total >= minimum while inactive, withdrawal below the minimum deactivates, total == sum of records, active index == flags, module balance covers totals, depositor and module balances equal a ledger model (rejected operations move nothing).",
+         "Sampling. Minimum deposit parameter fixed per run."),
  "C18": ("§5/C18", "Executable specification state machine of the single transition slot advanced per block in end-blocker order (gov, tss, bandtss) from facts owned by other modules (proposal executed, DKG outcome, hand-over signing outcome, block time) and compared with the chain's current group, transition record and module member list after every block; proposal acceptance predicted (window, in-progress, forced-group validity); requests while a transition awaits execution must create a current-group signing and at most an incoming-group one.",
          "Sampling. DKG outcome and signing outcome are taken from chain state (their correctness is C04/C10). 'Without affecting the current group's signing' is decided by the C05/C09 checks, whose workloads include this profile."),
  "C10": ("§5/C10", "Per-attempt model: stored expiry = creation + period in force; time-out never early, exactly on time while the parameter is unchanged; SUCCESS in the block of the last share; retry iff attempts left and enough available members (model availability at that point of the end block) else FALLEN; penalised set = idle assigned members active in the owning module; status/attempt monotone; one outcome event; interim data removed; drain-phase liveness.",
